@@ -200,13 +200,39 @@ impl SignatureConverter<'_> {
         let mut params = syn::punctuated::Punctuated::new();
         std::mem::swap(&mut params, &mut generics.params);
 
+        // Bounds of a type parameter that mention a lifetime parameter of the fn
+        // stay on the method, as where predicates:
+        let mut method_predicates: Vec<syn::WherePredicate> = vec![];
+
+        for param in params.iter() {
+            if let syn::GenericParam::Lifetime(_) = param {
+                generics.params.push(param.clone());
+            }
+        }
+
         for param in params.into_iter() {
-            match &param {
+            match param {
                 // type and const parameters are parameters of the trait
-                syn::GenericParam::Type(_) | syn::GenericParam::Const(_) => {}
-                _ => {
-                    generics.params.push(param);
+                syn::GenericParam::Type(type_param) => {
+                    if deps_ident == Some(&type_param.ident) {
+                        continue;
+                    }
+                    let ident = &type_param.ident;
+                    let bounds: Vec<_> = type_param
+                        .bounds
+                        .iter()
+                        .filter(|bound| {
+                            crate::analyze_generics::mentions_lifetime_param(
+                                quote::ToTokens::to_token_stream(bound),
+                                generics,
+                            )
+                        })
+                        .collect();
+                    if !bounds.is_empty() {
+                        method_predicates.push(syn::parse_quote! { #ident: #(#bounds)+* });
+                    }
                 }
+                syn::GenericParam::Const(_) | syn::GenericParam::Lifetime(_) => {}
             }
         }
 
@@ -230,6 +256,13 @@ impl SignatureConverter<'_> {
                     }
                 }
             }
+        }
+
+        if !method_predicates.is_empty() {
+            generics
+                .make_where_clause()
+                .predicates
+                .extend(method_predicates);
         }
     }
 }
